@@ -7,7 +7,7 @@
    [best_value ws]: the minimum of value5 over ALL five-card sub-hands of ws = the value of the best
                     poker hand that can be made from the cards (direct rule-based evaluation). *)
 From CKC Require Import Base.Prelude Base.Combs Spec.Layout Spec.Poker.
-From CKC Require Import Model.Five Model.HandRank Proofs.FiveFacts Proofs.CombFacts Proofs.C01 Proofs.C02.
+From CKC Require Import Model.Five Model.HandRank Proofs.FiveFacts Proofs.CombFacts Proofs.C01 Proofs.TableFacts Proofs.C02.
 Open Scope N_scope.
 
 (* every entry point returns the rule-based value *)
